@@ -49,3 +49,12 @@ Theorem C34_gt_index_bijection :
 Proof. exact thm_gt_index_bijection. Qed.
 Print Assumptions C34_gt_index_bijection.
 
+
+(** Packing is injective: distinct representable calls never share a 32-bit word (Python vs Python, engine vs engine,
+    Python vs engine). *)
+Theorem C34_pack_injective : forall c1 c2 : pycall, valid_call c1 -> valid_call c2 ->
+  (Py.convert_to_encoding c1 = Py.convert_to_encoding c2 -> c1 = c2) /\
+  (engine_pack c1 = engine_pack c2 -> c1 = c2) /\
+  (Py.convert_to_encoding c1 = engine_pack c2 -> c1 = c2).
+Proof. exact thm_pack_injective. Qed.
+Print Assumptions C34_pack_injective.
